@@ -3,7 +3,8 @@
   Property theorems only (model: Ctrl.lean; lemmas: Proofs/Ctrl.lean).
   All server histories, all fault sequences, all interleavings of list completion with in-flight watch
   events = all `CReach`able states (the scheduler/environment picks the labels; a list result may reflect
-  ANY earlier point of the history — slow lists — and the watch may end, reconnect, lag or never deliver).
+  ANY earlier point of the history — slow lists — and the watch may end, reconnect, lag, never deliver, or LOSE
+  changes to a buffer overflow: label `drop`).
 -/
 import KcacheModel.Ctrl
 import KcacheModel.Proofs.Ctrl
@@ -79,6 +80,14 @@ theorem converges_after_one_relist {w : CW K O} (h : CReach key ver acc w) (plis
     rw [(hi.notready hr').1]
     cases w.state key ver w.hist.length k <;> simp [csync, view]
 
+/-- lost events are part of "whatever went wrong": a change that overflowed a buffer leaves the cache and the
+published stream untouched (it is simply never seen), and `converges_after_one_relist` above holds in every
+state reachable with any number of such losses -/
+theorem lost_event_is_invisible (w : CW K O) :
+    (w.step key ver acc .drop).items = w.items ∧ (w.step key ver acc .drop).published = w.published ∧
+    (w.step key ver acc .drop).ready = w.ready := by
+  simp [CW.step]
+
 /-- every cached object occurred in the server's history (at the cached version) and is accepted -/
 theorem cache_sound {w : CW K O} (h : CReach key ver acc w) (hr : w.ready = true) (k : K) (e : Entry O)
     (he : lookup k w.items = some e) : (∃ s, s ≤ w.hist.length ∧ w.state key ver s k = some e) ∧ acc e.obj = true := by
@@ -100,4 +109,5 @@ end KC.C03
 #print axioms KC.C03.list_events_delta
 #print axioms KC.C03.converges_after_one_relist
 #print axioms KC.C03.cache_sound
+#print axioms KC.C03.lost_event_is_invisible
 #print axioms KC.C03.list_always_accepted
